@@ -1,7 +1,56 @@
 (* C11 driver.  Case lines:  <kind> <hex>
      T <token>   -> parse_zql_string token
      L <s>       -> expressible_min expressible_full  token-ok(min) token-ok(full)  value(min literal) value(full literal)
-     B <body>    -> body_ok body *)
+     B <body>    -> body_ok body
+     Q <path> <op> <ctx> <esc> <s> <k> <nd> <decoy>*nd <nr> <row>*nr
+                 -> one bit per row: does the row match  <lhs of path> <op> <literal(s)>  (Lang/StrCompare.v);
+                    row: ~ (no value / empty set) | hex | hex,hex,.. (set);  `?` = the model abstains
+                    (icontains on non-ASCII text: the model folds ASCII letters only) *)
+let c11q_str (s : string) : n list = List.map (fun c -> n_of_int (Char.code c)) (List.init (String.length s) (String.get s))
+let c11q_ascii (l : n list) = List.for_all (fun b -> int_of_n b < 128) l
+let rec c11q_take k l = if k <= 0 then ([], l) else match l with [] -> ([], []) | x :: r -> let (a, b) = c11q_take (k - 1) r in (x :: a, b)
+let c11q_elems (row : string) : n list list =
+  if row = "~" then [] else List.map bytes_of_hex (String.split_on_char ',' row)
+let c11q_sort_uniq (l : n list list) : n list list =
+  let key x = List.map int_of_n x in
+  List.sort_uniq (fun a b -> compare (key a) (key b)) l
+let c11q (f : string list) : string =
+  match f with
+  | path :: op :: ctx :: esc :: hs :: ks :: nds :: rest ->
+      let s = bytes_of_hex hs in
+      let k = int_of_string ks and nd = int_of_string nds in
+      let (dec, rest) = c11q_take nd rest in
+      let decoys = List.map bytes_of_hex dec in
+      let rows = match rest with _ :: rows -> rows | [] -> [] in
+      let lit v = if esc = "min" then literal_min v else literal_full v in
+      let (before, after) = c11q_take k decoys in
+      let lits = List.map lit (before @ (s :: after)) in
+      let p : (n list option -> bool) =
+        match op with
+        | "eq" -> cmp_query SEq (lit s) | "neq" -> cmp_query SNeq (lit s)
+        | "lt" -> cmp_query SLt (lit s) | "le" -> cmp_query SLe (lit s)
+        | "gt" -> cmp_query SGt (lit s) | "ge" -> cmp_query SGe (lit s)
+        | "contains" -> contains_query (c11q_str "contains") (lit s)
+        | "ncontains" -> contains_query (c11q_str "not contains") (lit s)
+        | "icontains" -> icontains_query (c11q_str "icontains") (lit s)
+        | "nicontains" -> icontains_query (c11q_str "not icontains") (lit s)
+        | "in" -> in_query (c11q_str "in") lits
+        | "notin" -> in_query (c11q_str "not in") lits
+        | _ -> (fun _ -> false) in
+      let abstain = (op = "icontains" || op = "nicontains") &&
+        not (c11q_ascii s && List.for_all (fun r -> List.for_all c11q_ascii (c11q_elems r)) rows) in
+      if abstain then "Q ?" else
+      let bit row =
+        let b = match path with
+          | "any" -> let es = c11q_sort_uniq (c11q_elems row) in
+                     if op = "eq" then any_of_eq_seek (lit s) es else any_of p es
+          | "anyfk" -> any_of p (c11q_elems row)
+          | "all" -> all_of p (c11q_elems row)
+          | _ -> if row = "~" then p None else p (Some (bytes_of_hex row)) in
+        let b = if ctx = "n" then not b else b in
+        if b then "1" else "0" in
+      "Q " ^ String.concat "" (List.map bit rows)
+  | _ -> "Q ?"
 let () =
   let sub = if Array.length Sys.argv > 1 then Sys.argv.(1) else "c11" in
   ignore sub;
@@ -14,5 +63,6 @@ let () =
         Printf.printf "L %s %s %s %s\n" (bool_str (expressible_min s)) (bool_str (expressible_full s))
           (hex_of_bytes (parse_zql_string lm)) (hex_of_bytes (parse_zql_string lf))
     | ["B"; h] -> print_endline ("B " ^ bool_str (body_ok (bytes_of_hex h)))
+    | "Q" :: f -> print_endline (c11q f)
     | [] -> ()
     | _ -> print_endline "?")
